@@ -178,6 +178,9 @@ INVALID = ["a >", "1a", "a[", ":not(", "a..b", "", " ", "a::", "#", ".", "a b >"
            "a::part(x).b", "a::slotted(y)::after", ":not(b)::part(x):hover", "a::before.b", "a::after#i", "a::part(x)[t]"]
 
 
+INVALID_SET = frozenset(INVALID)
+
+
 def config(rs, run, tier):
     r = rs("config")
     return {
@@ -224,6 +227,11 @@ class World:
             cu.log.raiseExceptions = mode
         if k != "ok" or not s.wellformed:
             return None
+        if text in INVALID_SET and text.strip():
+            # invalid by construction (the generator's list of malformed selectors): the library's own verdict is
+            # not taken for granted
+            self.stats["oracle"] += 1
+            raise Viol("invalid_selector_rejected", "invalid-accepted", f"the malformed selector {text!r} is accepted (serialised {s.selectorText!r}, specificity {tuple(s.specificity)})")
         return (s.selectorText, tuple(s.specificity), P.p_selector(s)[2])
 
     def check_selector(self, sel, texts):
